@@ -117,3 +117,23 @@ Definition vtol_check (x : list (list Q) * list Q * list Q * Q * Q * list Q) : n
   else if negb (forall2b Qeq_bool mu (vstep A c mu)) then 32%nat
   else if forall2b (fun m o => Qle_bool (m - tol / (1 - a) - delta) o && Qle_bool o (m + delta)) mu obs
        then 0%nat else 1%nat.
+
+(** * NONLINEAR monotone case: polynomial systems with non-negative coefficients over Q^n.
+    A monomial is (coefficient, list of variable indices, with repetition); a polynomial a list of
+    monomials; a system one polynomial per variable.  A variable index beyond the vector reads 0
+    (in every vector alike; the theorems hold with or without such indices). *)
+Definition pget (x : list Q) (i : nat) : Q := nth i x 0.
+Definition mono_val (x : list Q) (vs : list nat) : Q := fold_right (fun i p => pget x i * p) 1 vs.
+Definition poly_val (x : list Q) (p : list (Q * list nat)) : Q :=
+  fold_right (fun m s => fst m * mono_val x (snd m) + s) 0 p.
+Definition pstep (sys : list (list (Q * list nat))) (x : list Q) : list Q := map (poly_val x) sys.
+Fixpoint piter (sys : list (list (Q * list nat))) (k : nat) : list Q :=
+  match k with O => vzero (length sys) | S k => pstep sys (piter sys k) end.
+(** sum over the variables of the partial derivatives of a monomial at [mu] (= the directional
+    derivative along the all-ones vector): the contribution of the monomial to the row sum of
+    the Jacobian *)
+Fixpoint dmono_sum (mu : list Q) (vs : list nat) : Q :=
+  match vs with [] => 0 | i :: vs' => mono_val mu vs' + pget mu i * dmono_sum mu vs' end.
+(** row sum of the Jacobian of a polynomial at [mu] *)
+Definition dpoly_sum (mu : list Q) (p : list (Q * list nat)) : Q :=
+  fold_right (fun m s => fst m * dmono_sum mu (snd m) + s) 0 p.
